@@ -268,6 +268,7 @@ package eventbus
 //@   at call:Observability.OnPublishComplete assert [C20.publish.last] {C20} rangeindex__1 == len(handlersCopy) &&
 //@        cnt(afterHook) == ite(bus.afterPublish != nil, 1, 0) && cnt(afterHookCtx) == ite(bus.afterPublishCtx != nil, 1, 0)
 //@   loop 1 invariant [idx] rangeindex < len(handlersCopy) && -1 <= rangeindex
+//@   loop 1 owned onceHandlersToRemove
 //@   loop 1 invariant [copy.alloc] allocated(sarr(handlersCopy)) && sarr(handlersCopy) != sarr(onceHandlersToRemove)
 //@   loop 1 invariant [copy.stable] seqeq(handlersCopy, loopentry(handlersCopy))
 //@   loop 1 invariant [copy.reg] forall i int :: 0 <= i && i < len(handlersCopy) ==> handlersCopy[i] != nil && regTyped(handlersCopy[i], typeOf(T))
@@ -787,6 +788,8 @@ package eventbus
 //@   effect opaque
 //@ event upcastCall := call UpcastFunc record 0:Int 1:String
 //@ event upErrHandler := call UpcastErrorHandler
+//@ event applyCall := call (*upcastRegistry).apply
+//@ event replayCall := call (*EventBus).Replay
 //@ def firstUp(r, t) ite(len(r.upcasters[t]) > 0, r.upcasters[t][0].Upcast, 0)
 //@ lockinv upcastRegistry.mu(r) [UpInv.fn] {C16,C17} forall t string, i int :: {r.upcasters[t][i]} 0 <= i && i < len(r.upcasters[t]) ==> r.upcasters[t][i].Upcast != nil
 
@@ -808,3 +811,22 @@ package eventbus
 //@          upFails(nth(upcastCall, cnt(upcastCall) - 1, 0), nth(upcastCall, cnt(upcastCall) - 1, 1)) && r.errorHandler != nil, 1, 0)
 //@   ensures [C17.apply.fail.handlerArgs] {C17} cnt(upErrHandler) == 1 ==> result2 != nil && lastarg(upErrHandler, 2, String) == nth(upcastCall, cnt(upcastCall) - 1, 1)
 //@        && lastarg(upErrHandler, 3, Iface) != nil
+
+// ReplayWithUpcast: the callback handed to Replay.  Whole chain or nothing:
+// on success the user callback gets a NEW event with the upcast data/type and
+// the same Offset and Timestamp; on failure it gets the stored event itself.
+//@ func (*EventBus).ReplayWithUpcast$1
+//@   props C17
+//@   requires event != nil && bus != nil && handler != nil
+//@   ensures [C17.cb.once] cnt(replayCb) == 1 && result == lastres(replayCb, Iface) && cnt(upErrHandler) == 0
+//@   ensures [C17.cb.ok] bus.upcastRegistry != nil && lastresi(applyCall, 2, Iface) == nil ==>
+//@        lastarg(replayCb, 1, *StoredEvent).Data == lastresi(applyCall, 0, String) && lastarg(replayCb, 1, *StoredEvent).Type == lastresi(applyCall, 1, String) &&
+//@        lastarg(replayCb, 1, *StoredEvent).Offset == event.Offset && lastarg(replayCb, 1, *StoredEvent).Timestamp == event.Timestamp &&
+//@        lastarg(applyCall, 1, String) == event.Data && lastarg(applyCall, 2, String) == event.Type && cnt(applyCall) == 1
+//@   ensures [C17.cb.fallback] bus.upcastRegistry == nil || lastresi(applyCall, 2, Iface) != nil ==> lastarg(replayCb, 1) == event
+
+//@ func (*EventBus).ReplayWithUpcast
+//@   props C17 C11
+//@   requires bus != nil && ctx != nil && handler != nil
+//@   requires bus.store != nil ==> resumable(log(payload(bus.store)), from)
+//@   ensures [C17.delegates] cnt(replayCall) == 1 && lastarg(replayCall, 0) == bus && lastarg(replayCall, 2, String) == from && result == lastres(replayCall, Iface)
